@@ -147,9 +147,9 @@ PROPS = {
     "C08": {
         "rule": "cases = (carrier type, value); u8 and u16 exhaustively through every type able to carry the value; "
                 "all 2^k +-2, byte fills, u64::MAX-3.., random values of random bit width (100k quick / 1M thorough) through "
-                "every wide-enough type; thorough adds all u32 through u32/u64/usize; distinct = distinct (type, value)",
+                "every wide-enough type; thorough adds every value below 2^24 and every u32 whose low or high half is 0x0000/0xffff through u32/u64/usize; distinct = distinct (type, value)",
         "exhaustive": {"quick": False, "thorough": False},
-        "exhaustive_note": "u8/u16 domains exhaustive in both tiers, u32 exhaustive in thorough; u64/usize sampled",
+        "exhaustive_note": "u8/u16 domains exhaustive in both tiers, 24-bit values exhaustive in thorough; u32/u64/usize sampled at the width boundaries and at random",
         "assumptions": COMMON_ASSUME,
     },
     "C09": {
@@ -162,9 +162,9 @@ PROPS = {
     "C16": {
         "rule": "cases = EISA id text / UUID text; quick: every position over its alphabet x 3 backgrounds + 300k random ids, "
                 "every UUID nibble position x 22 hex characters + 40k random UUIDs in mixed case; malformed = one-position "
-                "mutants and length +-1; thorough: all 26^3*16^4 EISA ids; distinct = distinct text",
+                "mutants (every ASCII byte at every position) and length +-1; thorough: every letter triple x 128 digit quadruples and every digit quadruple x 64 letter triples; distinct = distinct text",
         "exhaustive": {"quick": False, "thorough": False},
-        "exhaustive_note": "thorough enumerates the whole valid-EISA-id domain (26^3 * 16^4); UUIDs are sampled",
+        "exhaustive_note": "the EISA domain (26^3 * 16^4 = 1.15e9) is covered per factor (all letter triples, all digit quadruples), not as a product; UUIDs are sampled",
         "assumptions": COMMON_ASSUME + ["EISA/UUID models cover ASCII input (chars() = bytes); non-ASCII input is outside the model"],
     },
     "C17": {
